@@ -1,9 +1,9 @@
 (* C09 -- source facts.  The machines and monitors this property rests on were written against, and validated on,
    these definitions of /repo; tools/srcfacts.py regenerates their normal-form digests on every run (coq/Gen/Src_*.v).
-   Statements only. *)
+   Statements only.  Written by `tools/srcfacts.py --props` from PROP_MODULES. *)
 From Coq Require Import List String.
-From ME Require Import Model.SrcExpected Gen.Src_timeout Gen.Src_map Gen.Src_common Gen.Src_ftimeout Gen.Src_helpers Gen.Src_event
-  Proofs.Src_ok_timeout Proofs.Src_ok_map Proofs.Src_ok_common Proofs.Src_ok_ftimeout Proofs.Src_ok_helpers Proofs.Src_ok_event.
+From ME Require Import Model.SrcExpected Gen.Src_timeout Gen.Src_map Gen.Src_common Gen.Src_ftimeout Gen.Src_helpers Gen.Src_event Gen.Src_logwrap Gen.Src_metrics_null
+  Proofs.Src_ok_timeout Proofs.Src_ok_map Proofs.Src_ok_common Proofs.Src_ok_ftimeout Proofs.Src_ok_helpers Proofs.Src_ok_event Proofs.Src_ok_logwrap Proofs.Src_ok_metrics_null.
 
 (* more_executors/_impl/timeout.py *)
 Theorem c09_source_timeout : Src_timeout.facts = expected_timeout.
@@ -23,6 +23,12 @@ Proof. exact src_helpers_ok. Qed.
 (* more_executors/_impl/event.py *)
 Theorem c09_source_event : Src_event.facts = expected_event.
 Proof. exact src_event_ok. Qed.
+(* more_executors/_impl/logwrap.py *)
+Theorem c09_source_logwrap : Src_logwrap.facts = expected_logwrap.
+Proof. exact src_logwrap_ok. Qed.
+(* more_executors/_impl/metrics/null.py *)
+Theorem c09_source_metrics_null : Src_metrics_null.facts = expected_metrics_null.
+Proof. exact src_metrics_null_ok. Qed.
 
 Print Assumptions c09_source_timeout.
 Print Assumptions c09_source_map.
@@ -30,3 +36,5 @@ Print Assumptions c09_source_common.
 Print Assumptions c09_source_ftimeout.
 Print Assumptions c09_source_helpers.
 Print Assumptions c09_source_event.
+Print Assumptions c09_source_logwrap.
+Print Assumptions c09_source_metrics_null.
